@@ -97,7 +97,8 @@ class Machine(object):
         if r < 0.07:
             return {"kind": "gen_rsa_close", "bits": 1024, "e": rng.choice([3, 65537]), "seed": s, "gap": rng.choice([0, 2, 100, 10 ** 6, 1 << 200, 1 << 411, 1 << 412, 1 << 413]), "ops": []}
         if r < 0.12:
-            return {"kind": "gen_dsa", "seed": s, "tape": rng.choice(["seeded", "zero_prefix", "ff_prefix", "period"]), "ops": []}
+            return {"kind": "gen_dsa", "seed": s, "tape": rng.choice(["seeded", "zero_prefix", "ff_prefix", "period"]),
+                    "tail": rng.choice([None, None, "0", "1", "q-3", "q-2", "q-1", "q-1", "q", "q+1", "ff"]), "span": rng.choice([1, 2, 3]), "ops": []}
         if r < 0.125 and tier == "thorough":
             return {"kind": "gen_elgamal", "seed": s, "bits": 256, "ops": []}
         if r < 0.30:
@@ -124,6 +125,8 @@ class Machine(object):
             return {"kind": "near_curve", "seed": rng.randrange(1 << 30), "ops": []}
         if r < 0.81:
             return {"kind": "toy", "fam": rng.choice(["RSA", "DSA", "ElGamal"]), "seed": rng.randrange(1 << 30), "ops": []}
+        if r < 0.86:
+            return {"kind": "ecc_alloc", "seed": rng.randrange(1 << 30), "ops": []}
         fam = rng.choice(["RSA", "DSA", "ECC", "ECC", "ElGamal"])
         muts = []
         for _ in range(16):
@@ -234,6 +237,23 @@ class Machine(object):
             ctx.violate("generate/DSA/exception:%s" % type(e).__name__, "DSA.generate raised %r" % e, observed=repr(e), expected="key")
         ctx.obs(int(k.x))
         self._judge(ctx, "DSA.generate", K.check_dsa(k))
+        if case.get("tail"):
+            # the bytes that carried the private value (the last read, the last two reads, or the last |q| bytes
+            # consumed) are replaced by a boundary value: the key must still satisfy its invariants
+            q = int(self.domain[1])
+            end = t.pos
+            sizes = [len(r) for r in t.reads]
+            n = {1: sizes[-1], 2: sizes[-1] + sizes[-2], 3: (q.bit_length() + 7) // 8}[case.get("span", 1)]
+            v = {"0": 0, "1": 1, "q-3": q - 3, "q-2": q - 2, "q-1": q - 1, "q": q, "q+1": q + 1, "ff": (1 << (8 * n)) - 1}[case["tail"]]
+            v &= (1 << (8 * n)) - 1
+            ctx.fault("rng.engineered_read")
+            t2 = RecTape(case["seed"], self._tape_prefix(case["tape"], 200), patch={end - n: v.to_bytes(n, "big")})
+            try:
+                k2 = DSA.generate(1024, randfunc=t2, domain=self.domain)
+            except Exception as e:
+                ctx.violate("generate/DSA/exception:%s" % type(e).__name__, "DSA.generate raised %r" % e, observed=repr(e), expected="key")
+            self._judge(ctx, "DSA.generate", K.check_dsa(k2), " (private-value bytes on the tape set to %s)" % case["tail"])
+            ctx.probe("dsa_private_value_engineered")
 
     def run_gen_elgamal(self, case, ctx):
         from Crypto.PublicKey import ElGamal
@@ -369,6 +389,79 @@ class Machine(object):
                             cn, "", res if res < 1 << 64 else 0, j),
                         observed="key accepted (x=%x.., y=%x..)" % (x >> 64, y >> 64), expected="ValueError")
 
+    def run_ecc_alloc(self, case, ctx):
+        """Allocation failures inside the native EC code while a key is being constructed (build variant ``alloc``: the
+        library's malloc/calloc/posix_memalign go through a shim that can fail the i-th request).  Whatever fails, the
+        library either raises or hands out the key it hands out without the fault: a point it refuses when memory is
+        plentiful is never accepted because memory was short."""
+        from Crypto.PublicKey import ECC
+        from ..seams import allocator
+        allocator.load()
+        rng = Rng(case["seed"])
+        lib = {"P-192": "p192", "P-224": "p224", "P-256": "p256", "P-384": "p384", "P-521": "p521", "Ed25519": "ed25519", "Ed448": "ed448"}
+        for _ in range(5):
+            ctx.step()
+            cn = rng.choice(list(lib))
+            ws = cn in ec.WS
+            c = ec.WS[cn] if ws else ec.ED[cn]
+            p_ = c["p"]
+            G = ec.ws_generator(c) if ws else ec.ed_generator(c)
+            k_ = 2 + rng.randrange(1 << 60)
+            P = ec.ws_mul(c, k_, G) if ws else ec.ed_mul(c, k_, G)
+            kind = rng.choice(["off", "off", "off", "on", "priv", "mismatch"] if ws else ["off", "off", "on"])
+            if kind == "off":
+                x, y = P[0], (P[1] + rng.choice([1, 2, p_ - 1, 1 << rng.randrange(p_.bit_length() - 1)])) % p_
+                if (ec.ws_on_curve(c, x, y) if ws else ec.ed_on_curve(c, x, y)):
+                    continue
+                kw = dict(point_x=x, point_y=y)
+            elif kind == "on":
+                kw = dict(point_x=P[0], point_y=P[1])
+            elif kind == "priv":
+                kw = dict(d=k_)
+            else:
+                Q2 = ec.ws_mul(c, k_ + 1, G)
+                kw = dict(d=k_, point_x=Q2[0], point_y=Q2[1])
+            call = lambda: ECC.construct(curve=lib[cn], **kw)
+            allocator.reset()
+            try:
+                k0 = call()
+            except ValueError:
+                k0 = None
+            n = allocator.calls()
+            if (k0 is None) != (kind in ("off", "mismatch")):
+                ctx.violate("invariant/ECC.construct/%s-%s" % (kind, "accepted" if k0 is not None else "refused"),
+                            "ECC.construct(curve=%s) %s a %s input" % (cn, "accepted" if k0 is not None else "refused", kind), observed=repr(k0)[:60], expected="the opposite")
+            ctx.state(("ecc_alloc", cn, kind, min(n, 40)))
+            idxs = list(range(n)) if n <= 48 else sorted(set(list(range(24)) + [rng.randrange(n) for _ in range(24)]))
+            for i in idxs:
+                allocator.arm(i)
+                try:
+                    k = call()
+                    out = None
+                except Exception as e:
+                    k, out = None, e
+                finally:
+                    fired = allocator.failed() > 0
+                    allocator.disarm()
+                if fired:
+                    ctx.fault("alloc.fail")
+                ctx.obs(cn, kind, i, type(out).__name__)
+                if k is None:
+                    ctx.probe("alloc_failure_raised" if fired else "no_failure_fired")
+                    continue
+                if k0 is None:
+                    ctx.violate("invariant/ECC.construct/alloc-failure/%s-accepted" % ("off-curve-point" if kind == "off" else "mismatched-key"),
+                                "ECC.construct(curve=%s) accepted %s when allocation number %d of %d inside the call failed" % (
+                                    cn, "a point that is not on the curve" if kind == "off" else "a private scalar with another key's public point", i, n),
+                                observed="key accepted", expected="ValueError or MemoryError")
+                bad = K.check_ecc(k)
+                if bad or k != k0:
+                    ctx.violate("invariant/ECC.construct/alloc-failure/wrong-key",
+                                "ECC.construct(curve=%s, %s) under a failed allocation (number %d of %d) returned a key that %s" % (
+                                    cn, kind, i, n, "; ".join(bad) if bad else "differs from the key returned without the fault"),
+                                observed="key", expected="the same key or an exception")
+                ctx.probe("alloc_failure_survived")
+
     def run_toy(self, case, ctx):
         """Adversarially *consistent* tuples: every arithmetic relation between the components holds, but one component
         that must be prime is a (small or pseudoprime) composite.  Beyond the fault model proper; kept because a
@@ -400,7 +493,37 @@ class Machine(object):
             if comp % 2 == 0 or K.is_prime(comp):
                 continue
             try:
-                if fam == "RSA":
+                if fam == "RSA" and rng.random() < 0.4:
+                    # (n, e, d) only: the library recovers the factors itself.  n = a*b*c with d consistent for *every* way
+                    # of splitting it (L is a multiple of a-1, b-1, c-1 and of xy-1 for the pairs): nothing but the
+                    # primality test of the recovered factors can refuse the tuple
+                    from math import lcm
+                    found = None
+                    for _try in range(400):
+                        a, b, c = rng.sample(small_primes[:70], 3)
+                        n = a * b * c
+                        for pairs in ((a * b, a * c, b * c), (a * b,), (a * c,), (b * c,)):
+                            L = lcm(a - 1, b - 1, c - 1, *[x - 1 for x in pairs])
+                            if L < n:
+                                break
+                        else:
+                            continue
+                        es = [x for x in (3, 5, 7, 11, 13, 17, 19, 23, 29, 31, 37, 41, 43, 47, 65537) if gcd(x, L) == 1 and x < n and gcd(x, n) == 1]
+                        if not es:
+                            continue
+                        e = rng.choice(es)
+                        d = pow(e, -1, L)
+                        if d <= 1:
+                            d += L
+                        if 1 < d < n and gcd(d, n) == 1:
+                            found = (n, e, d)
+                            break
+                    if found is None:
+                        continue
+                    tup = found
+                    what = "RSA.construct(n=%d (=%d*%d*%d), e=%d, d=%d)" % (tup[0], a, b, c, tup[1], tup[2])
+                    k = RSA.construct(tup, consistency_check=True)
+                elif fam == "RSA":
                     q = rng.choice([x for x in small_primes if comp % x]) if kind != "big" else K.next_prime(rng.getrandbits(50))
                     n = comp * q
                     lam = (comp - 1) * (q - 1) // gcd(comp - 1, q - 1)
